@@ -301,7 +301,8 @@ func verifyDelayPeriodPassed(ctx sdk.Context, store storetypes.KVStore, proofHei
 		validTime := processedTime + delayTimePeriod
 
 		// NOTE: delay time period is inclusive, so if currentTimestamp is validTime, then we return no error
-		if currentTimestamp < validTime {
+		// if processedTime + delayTimePeriod overflows, the delay period can never pass
+		if validTime < processedTime || currentTimestamp < validTime {
 			return errorsmod.Wrapf(ErrDelayPeriodNotPassed, "cannot verify packet until time: %d, current time: %d",
 				validTime, currentTimestamp)
 		}
@@ -318,7 +319,8 @@ func verifyDelayPeriodPassed(ctx sdk.Context, store storetypes.KVStore, proofHei
 		validHeight := clienttypes.NewHeight(processedHeight.GetRevisionNumber(), processedHeight.GetRevisionHeight()+delayBlockPeriod)
 
 		// NOTE: delay block period is inclusive, so if currentHeight is validHeight, then we return no error
-		if currentHeight.LT(validHeight) {
+		// if processedHeight + delayBlockPeriod overflows, the delay period can never pass
+		if validHeight.GetRevisionHeight() < processedHeight.GetRevisionHeight() || currentHeight.LT(validHeight) {
 			return errorsmod.Wrapf(ErrDelayPeriodNotPassed, "cannot verify packet until height: %s, current height: %s",
 				validHeight, currentHeight)
 		}
